@@ -370,35 +370,44 @@ theorem chain_rungs_are_source_loops :
       | _, _ => false) = true := by decide
 
 open DDP.LadderParse in
-/-- **Minimal parentheses are faithful.** For every tree over the chain operators and the prefix operators, the parser
-(at the table of the DDP in /repo) reads the minimal-parentheses spelling back as that tree, and every larger fuel gives
-the same answer. Instance of `parse_pp` (`DDP/Proofs/LadderParse.lean`: any table, any tree, induction on the tree). -/
+/-- **Minimal parentheses are faithful.** For every tree over the chain operators, the prefix operators and the conditional
+expression `a, falls c, ansonsten b`, the parser (at the table of the DDP in /repo) reads the minimal-parentheses spelling
+back as that tree, and every larger fuel gives the same answer. Instance of `parse_pp` (`DDP/Proofs/LadderParse.lean`: any
+table, any tree, induction on the tree). -/
 theorem minimal_parentheses_faithful (e : E) (h : wf ddpTbl e) :
-    ∃ f₀, ∀ f, f₀ ≤ f → parse ddpTbl f 0 (pp ddpTbl 0 e) = some (e, []) :=
+    ∃ f₀, ∀ f, f₀ ≤ f → parseIf ddpTbl f (ppI ddpTbl e) = some (e, []) :=
   parse_pp_stable ddpTbl e h
 
 open DDP.LadderParse in
 /-- the same without fuel: `parseAll` runs the ladder with the fuel `fuel_suffices` proves sufficient for every input -/
-theorem minimal_parentheses_roundtrip (e : E) (h : wf ddpTbl e) : parseAll ddpTbl (pp ddpTbl 0 e) = some e :=
+theorem minimal_parentheses_roundtrip (e : E) (h : wf ddpTbl e) : parseAll ddpTbl (ppI ddpTbl e) = some e :=
   parseAll_pp ddpTbl e h
 
 open DDP.LadderParse in
 /-- `parseAll` answers exactly what the ladder answers with any amount of fuel (so the model driver of the tie, which calls
 `parseAll`, is the model and not a truncation of it) -/
 theorem parseAll_is_the_ladder (ts : List Tok) (e : E) :
-    parseAll ddpTbl ts = some e ↔ ∃ f, parse ddpTbl f 0 ts = some (e, []) :=
+    parseAll ddpTbl ts = some e ↔ ∃ f, parseIf ddpTbl f ts = some (e, []) :=
   ⟨parseAll_sound ddpTbl, fun ⟨_, h⟩ => parseAll_complete ddpTbl h⟩
 
 open DDP.LadderParse in
-/-- the same inside a larger sentence: whatever follows, as long as it is not an operator word the rung would take -/
+/-- the same inside a larger sentence, as operand of chain rung `k`: whatever follows, as long as it is not an operator word
+the rung would take -/
 theorem minimal_parentheses_faithful_in_context (e : E) (h : wf ddpTbl e) (k : Nat) (hk : k ≤ 10) (rest : List Tok)
     (hrest : okRest ddpTbl k rest) : ∃ f, parse ddpTbl f k (pp ddpTbl k e ++ rest) = some (e, rest) :=
   parse_pp_at ddpTbl e h k (by rw [chain_table_from_source.1]; exact hk) rest hrest
 
 open DDP.LadderParse in
+/-- … and where a whole expression stands (condition or alternative of a conditional expression, inside parentheses): what
+follows must be neither an operator word nor `, falls` -/
+theorem minimal_parentheses_faithful_whole_expression (e : E) (h : wf ddpTbl e) (rest : List Tok) (hrest : okRestI rest) :
+    ∃ f, parseIf ddpTbl f (ppI ddpTbl e ++ rest) = some (e, rest) :=
+  parseIf_pp_at ddpTbl e h rest hrest
+
+open DDP.LadderParse in
 /-- **Minimal parentheses lose nothing**: different trees are spelled differently -/
 theorem minimal_parentheses_injective (e₁ e₂ : E) (h₁ : wf ddpTbl e₁) (h₂ : wf ddpTbl e₂)
-    (h : pp ddpTbl 0 e₁ = pp ddpTbl 0 e₂) : e₁ = e₂ :=
+    (h : ppI ddpTbl e₁ = ppI ddpTbl e₂) : e₁ = e₂ :=
   pp_injective ddpTbl e₁ e₂ h₁ h₂ h
 
 open DDP.LadderParse in
@@ -429,9 +438,23 @@ example : pp ddpTbl 0 (.un 0 (.bin 1 (.atom 1) (.atom 2))) = [.uop 0, .lp, .atom
 /-- the table matters: with `mal` moved to the rung of `plus` the same tokens give another tree -/
 example : parseAll ⟨10, fun o => if o = 8 then 8 else ddpTbl.lv o⟩ [.atom 1, .bop 5, .atom 2, .bop 8, .atom 3] =
     some (.bin 8 (.bin 5 (.atom 1) (.atom 2)) (.atom 3)) := by decide
+/-- `1, falls a, ansonsten 2, falls b, ansonsten 3` is `1, falls a, ansonsten (2, falls b, ansonsten 3)`: a chain of conditional
+expressions nests to the right and is spelled without parentheses; the left-nested tree needs them -/
+example : parseAll ddpTbl [.atom 1, .falls, .atom 7, .sonst, .atom 2, .falls, .atom 8, .sonst, .atom 3] =
+    some (.ite (.atom 1) (.atom 7) (.ite (.atom 2) (.atom 8) (.atom 3))) ∧
+    ppI ddpTbl (.ite (.atom 1) (.atom 7) (.ite (.atom 2) (.atom 8) (.atom 3))) =
+      [.atom 1, .falls, .atom 7, .sonst, .atom 2, .falls, .atom 8, .sonst, .atom 3] ∧
+    ppI ddpTbl (.ite (.ite (.atom 1) (.atom 7) (.atom 2)) (.atom 8) (.atom 3)) =
+      [.lp, .atom 1, .falls, .atom 7, .sonst, .atom 2, .rp, .falls, .atom 8, .sonst, .atom 3] := by decide
+/-- a conditional expression is looser than every chain: as an operand it is parenthesised, its own value operand is not -/
+example : ppI ddpTbl (.bin 5 (.atom 1) (.ite (.atom 2) (.atom 7) (.atom 3))) =
+      [.atom 1, .bop 5, .lp, .atom 2, .falls, .atom 7, .sonst, .atom 3, .rp] ∧
+    parseAll ddpTbl [.atom 1, .bop 5, .atom 2, .falls, .atom 7, .sonst, .atom 3] =
+      some (.ite (.bin 5 (.atom 1) (.atom 2)) (.atom 7) (.atom 3)) := by decide
 /-- ill-formed sequences are rejected, not repaired -/
 example : parseAll ddpTbl [.atom 1, .bop 5] = none ∧ parseAll ddpTbl [.atom 1, .atom 2] = none ∧
-    parseAll ddpTbl [.lp, .atom 1] = none ∧ parseAll ddpTbl [.bop 5, .atom 1] = none := by decide
+    parseAll ddpTbl [.lp, .atom 1] = none ∧ parseAll ddpTbl [.bop 5, .atom 1] = none ∧
+    parseAll ddpTbl [.atom 1, .falls, .atom 7] = none ∧ parseAll ddpTbl [.atom 1, .sonst, .atom 7] = none := by decide
 end examples
 
 end DDP.Ladder
